@@ -1,4 +1,311 @@
-import Props.Lemmas
+/-
+  C04 — ROM positions are contiguous, ordered and exclude noload data.
+-/
+import Props.Writer
 namespace Slinky.C04
-theorem placeholder : True := trivial
+open Slinky W
+
+theorem romPos_last : romPos.getLast? = some 's' := by decide
+
+theorem ne_romPos {s : Str} (h : endsOk s) : s ≠ romPos := endsOk_ne s romPos h romPos_last
+
+/-- nothing between the braces of an output section reads or writes the ROM counter. -/
+theorem romView_inner {st : Style} {wild : Bool} {l : Line} (h : InnerLine st wild l) : romView l = none := by
+  cases h with
+  | body hb =>
+    cases hb with
+    | input => rfl
+    | pad n => simp [romView, romPos]
+    | offset nm => simp [romView, linkerSym, ne_romPos (linkerOffset_ok st nm)]
+  | blank => rfl
+  | alignDot a => simp [romView, alignSymbol, romPos]
+  | gp off p h => simp [romView, romPos]
+  | symDot s hs => simp [romView, linkerSym, ne_romPos hs]
+  | symSize s a b hs => simp [romView, linkerSym, ne_romPos hs]
+
+theorem filterMap_none {α β} (f : α → Option β) (l : List α) (h : ∀ x ∈ l, f x = none) : l.filterMap f = [] := by
+  induction l with
+  | nil => rfl
+  | cons a as ih =>
+    simp [List.filterMap_cons, h a List.mem_cons_self, ih (fun x hx => h x (List.mem_cons_of_mem _ hx))]
+
+theorem kindStart_rom (cx : Ctx) (seg : Segment) (nl : Bool) : (kindStart cx seg nl).filterMap romView = [] := by
+  unfold kindStart
+  split
+  · simp [romView, linkerSym, ne_romPos (segVramStart_ok _ _)]
+  · rfl
+
+theorem kindEnd_rom (cx : Ctx) (seg : Segment) (nl : Bool) : (kindEnd cx seg nl).filterMap romView = [] := by
+  unfold kindEnd
+  split
+  · simp [romView, linkerSym, symEndSize, ne_romPos (segVramEnd_ok _ _), ne_romPos (segVramSize_ok _ _)]
+  · rfl
+
+/-- the ROM view of one output section of a segment is just its header. -/
+theorem writeSegment_rom (cx : Ctx) (seg : Segment) (secs : List Str) (noload : Bool) (ls : List Line)
+    (h : writeSegment cx seg secs noload = .ok ls) :
+    ls.filterMap romView =
+      [if noload then .hdr (c!"." ++ seg.name ++ c!".noload") true none
+       else .hdr (c!"." ++ seg.name) false (some (cx.d.settings.style.segRomStart seg.name))] := by
+  obtain ⟨body, hls, hbody⟩ := writeSegment_shape cx seg secs noload ls h
+  subst hls
+  simp only [List.filterMap_append]
+  rw [filterMap_none romView body (fun x hx => romView_inner (hbody x hx)), kindEnd_rom]
+  unfold segmentStart
+  simp only [List.filterMap_append, kindStart_rom]
+  cases noload <;> cases seg.fillValue <;> simp [romView]
+
+
+theorem rv_read (s : Str) (h : endsOk s) : romView (linkerSym s (.sym c!"__romPos")) = some (.readRom s) := by
+  have h1 : s ≠ romPos := ne_romPos h
+  have h2 : (c!"__romPos" : Str) = romPos := rfl
+  rw [h2]
+  simp [romView, linkerSym, h1]
+theorem rv_addr (s t : Str) (h : endsOk s) : romView (linkerSym s (.addr t)) = none := by
+  simp [romView, linkerSym, ne_romPos h]
+theorem rv_dot (s : Str) (h : endsOk s) : romView (linkerSym s .dot) = none := by
+  simp [romView, linkerSym, ne_romPos h]
+theorem rv_abs (s a b : Str) (h : endsOk s) : romView (linkerSym s (.absSub a b)) = none := by
+  simp [romView, linkerSym, ne_romPos h]
+theorem rv_alignRom (a : Nat) : romView (alignSymbol c!"__romPos" a) = some (.alignRom a) := by
+  have h2 : (c!"__romPos" : Str) = romPos := rfl
+  rw [h2]
+  simp [romView, alignSymbol]
+theorem rv_alignDot (a : Nat) : romView (alignSymbol c!"." a) = none := by
+  simp [romView, alignSymbol, romPos]
+theorem rv_add (t : Str) : romView (.addAssign c!"__romPos" (.sizeofE t)) = some (.addSize t) := by
+  have h2 : (c!"__romPos" : Str) = romPos := rfl
+  rw [h2]
+  simp [romView]
+theorem rv_max (s t : Str) (h : endsOk s) : romView (maxSelf s t) = none := by
+  simp [romView, maxSelf, ne_romPos h]
+theorem rv_blank : romView .blank = none := rfl
+
+theorem findClass_mem (d : Document) (n : Str) (vc : VramClass) (h : findClass d n = some vc) : vc ∈ d.vramClasses := by
+  unfold findClass at h
+  have := List.mem_of_find?_eq_some h
+  simpa using this
+
+theorem classIntro_rom (cx : Ctx) (cn : Str) (vc : VramClass) (hfs : vc.fixedSymbol ≠ some romPos) :
+    (classIntro cx cn vc).filterMap romView = [] := by
+  apply filterMap_none
+  intro l hl
+  unfold classIntro at hl
+  simp only [List.mem_append, List.mem_cons, List.mem_nil_iff, or_false] at hl
+  rcases hl with hl | hl | hl
+  · split at hl
+    · simp at hl; subst hl
+      simp [romView, linkerSym, ne_romPos (classStart_ok _ _)]
+    · split at hl
+      · rename_i fs hfs'
+        simp at hl; subst hl
+        have : fs ≠ romPos := fun he => hfs (by rw [hfs', he])
+        simp [romView, linkerSym, ne_romPos (classStart_ok _ _), this]
+      · simp only [List.mem_cons, List.mem_map] at hl
+        rcases hl with hl | ⟨o, _, hl⟩
+        · subst hl; simp [romView, linkerSym, ne_romPos (classStart_ok _ _)]
+        · subst hl; simp [romView, maxSelf, ne_romPos (classStart_ok _ _)]
+  · subst hl; simp [romView, linkerSym, ne_romPos (classEnd_ok _ _)]
+  · subst hl; rfl
+
+/-- **the ROM statements of one segment.** An emitted segment contributes exactly: the start
+alignment of `__romPos` (if any), `ROM_START = __romPos`, the header of its allocatable part
+with `AT(ROM_START)`, the `(NOLOAD)` header of its noload part without a load address,
+`__romPos += SIZEOF(.name)` — the size of the *allocatable* part only — the end alignment (if
+any) and `ROM_END = __romPos`; nothing else touches the ROM counter; an excluded segment
+contributes nothing. -/
+theorem addSegment_rom (cx : Ctx) (em : List Str) (seg : Segment) (ls : List Line) (em' : List Str)
+    (hcls : ∀ vc ∈ cx.d.vramClasses, vc.fixedSymbol ≠ some romPos)
+    (h : addSegment cx em seg = .ok (ls, em')) :
+    ls.filterMap romView =
+      if shouldEmit cx.o seg.cond then segmentRom cx.d.settings.style seg else [] := by
+  unfold addSegment at h
+  split at h
+  · rename_i hx
+    injection h with h
+    simp only [Prod.mk.injEq] at h
+    obtain ⟨h1, _⟩ := h
+    subst h1
+    have : shouldEmit cx.o seg.cond = false := by
+      cases hh : shouldEmit cx.o seg.cond
+      · rfl
+      · simp [hh] at hx
+    simp [this]
+  · rename_i hinc
+    have hs : shouldEmit cx.o seg.cond = true := by
+      cases hh : shouldEmit cx.o seg.cond
+      · simp [hh] at hinc
+      · rfl
+    split at h
+    · contradiction
+    · rename_i cls em1 hcp
+      split at h
+      · contradiction
+      · rename_i alloc halloc
+        split at h
+        · contradiction
+        · rename_i noload hnoload
+          injection h with h
+          simp only [Prod.mk.injEq] at h
+          obtain ⟨h1, _⟩ := h
+          subst h1
+          have hclsR : cls.filterMap romView = [] := by
+            unfold classPart at hcp
+            split at hcp
+            · injection hcp with hcp; simp only [Prod.mk.injEq] at hcp; rw [← hcp.1]; rfl
+            · split at hcp
+              · contradiction
+              · rename_i vc hvc
+                split at hcp
+                · injection hcp with hcp; simp only [Prod.mk.injEq] at hcp; rw [← hcp.1]; rfl
+                · injection hcp with hcp; simp only [Prod.mk.injEq] at hcp; rw [← hcp.1]
+                  exact classIntro_rom cx _ vc (hcls vc (findClass_mem _ _ _ hvc))
+          unfold segmentLines
+          simp only [List.filterMap_append, hclsR, writeSegment_rom cx seg _ false alloc halloc,
+            writeSegment_rom cx seg _ true noload hnoload, List.nil_append]
+          simp only [hs, if_true, segmentRom]
+          cases seg.segmentStartAlign <;> cases seg.segmentEndAlign <;> cases seg.vramClass <;>
+            simp [symEndSize, List.filterMap_cons, rv_read _ (segRomStart_ok _ _), rv_read _ (segRomEnd_ok _ _),
+              rv_addr _ _ (segVramStart_ok _ _), rv_dot _ (segVramEnd_ok _ _), rv_abs _ _ _ (segVramSize_ok _ _),
+              rv_abs _ _ _ (segRomSize_ok _ _), rv_alignRom, rv_alignDot, rv_add, rv_max _ _ (classEnd_ok _ _), rv_blank]
+
+
+/-- lifted over the segment list: the ROM view of everything `add_segment` writes is the
+concatenation, in document order, of the ROM statements of the emitted segments. -/
+theorem addSegments_rom (cx : Ctx) (hcls : ∀ vc ∈ cx.d.vramClasses, vc.fixedSymbol ≠ some romPos) :
+    ∀ (segs : List Segment) (em : List Str) (ls : List Line) (em' : List Str),
+      addSegments cx em segs = .ok (ls, em') →
+      ls.filterMap romView = (segs.filter (fun s => shouldEmit cx.o s.cond)).flatMap (segmentRom cx.d.settings.style) := by
+  intro segs
+  induction segs with
+  | nil =>
+    intro em ls em' h
+    simp [addSegments] at h
+    obtain ⟨h1, _⟩ := h
+    subst h1
+    rfl
+  | cons seg rest ih =>
+    intro em ls em' h
+    unfold addSegments at h
+    split at h
+    · contradiction
+    · rename_i a em1 ha
+      split at h
+      · contradiction
+      · rename_i b em2 hb
+        injection h with h
+        simp only [Prod.mk.injEq] at h
+        rw [← h.1, List.filterMap_append, addSegment_rom cx em seg a em1 hcls ha, ih em1 b em2 hb]
+        by_cases hs : shouldEmit cx.o seg.cond = true
+        · simp [List.filter_cons, hs]
+        · simp [List.filter_cons, hs]
+
+/-- **the machine run.** Executing the ROM statements of a list of segments from position `r`
+records, for every segment in order, `ROM_START` and `ROM_END` exactly as the documented
+recurrence `chain` says — for every size the link may give `SIZEOF(.name)` — and loads every
+allocatable part at its `ROM_START`, every noload part nowhere. -/
+theorem run_chain (size : Str → Nat) (st : Style) :
+    ∀ (segs : List Segment) (s0 : RomState),
+      let fin := runRom size s0 (segs.flatMap (segmentRom st))
+      fin.pos = (chain size s0.pos segs).2 ∧
+      fin.syms = s0.syms ++ ((chain size s0.pos segs).1.flatMap fun x =>
+          [(st.segRomStart x.1, x.2.1), (st.segRomEnd x.1, x.2.2)]) := by
+  intro segs
+  induction segs with
+  | nil => intro s0; simp [runRom, chain]
+  | cons seg rest ih =>
+    intro s0
+    simp only [List.flatMap_cons, runRom, List.foldl_append]
+    have key : ∀ (s1 : RomState),
+        (List.foldl (stepRom size) s1 (segmentRom st seg)).pos =
+          (match seg.segmentEndAlign with
+            | some a => alignUp ((match seg.segmentStartAlign with | some a => alignUp s1.pos a | none => s1.pos) + size (c!"." ++ seg.name)) a
+            | none => (match seg.segmentStartAlign with | some a => alignUp s1.pos a | none => s1.pos) + size (c!"." ++ seg.name)) ∧
+        (List.foldl (stepRom size) s1 (segmentRom st seg)).syms =
+          s1.syms ++ [(st.segRomStart seg.name, (match seg.segmentStartAlign with | some a => alignUp s1.pos a | none => s1.pos)),
+            (st.segRomEnd seg.name,
+              (match seg.segmentEndAlign with
+                | some a => alignUp ((match seg.segmentStartAlign with | some a => alignUp s1.pos a | none => s1.pos) + size (c!"." ++ seg.name)) a
+                | none => (match seg.segmentStartAlign with | some a => alignUp s1.pos a | none => s1.pos) + size (c!"." ++ seg.name)))] := by
+      intro s1
+      unfold segmentRom
+      cases seg.segmentStartAlign <;> cases seg.segmentEndAlign <;> simp [List.foldl, stepRom]
+    have h1 := key s0
+    have h2 := ih (List.foldl (stepRom size) s0 (segmentRom st seg))
+    simp only [runRom] at h2
+    rw [h1.1, h1.2] at h2
+    constructor
+    · rw [h2.1]; rfl
+    · rw [h2.2]; simp [chain]
+      cases seg.segmentStartAlign <;> cases seg.segmentEndAlign <;> simp
+
+
+theorem beginSections_rom (cx : Ctx) : (beginSections cx).filterMap romView = [.init] := by
+  unfold beginSections
+  have h1 : romView (.assign c!"__romPos" (.hex 0) false false false) = some .init := by
+    have h2 : (c!"__romPos" : Str) = romPos := rfl
+    rw [h2]; simp [romView]
+  have h3 : ∀ v, romView (.assign c!"_gp" (.hex8 v) false false false) = none := by
+    intro v
+    have : (c!"_gp" : Str) ≠ romPos := by decide
+    simp [romView, this]
+  cases cx.d.settings.hardcodedGpValue <;>
+    simp only [List.filterMap_append, List.filterMap_cons, List.filterMap_nil, h1, h3, List.append_nil, List.nil_append] <;> rfl
+
+theorem endSections_rom (cx : Ctx) (em : List Str) : (endSections cx em).filterMap romView = [] := by
+  apply filterMap_none
+  intro l hl
+  unfold endSections at hl
+  simp only [List.mem_append, List.mem_cons, List.mem_nil_iff, or_false, List.mem_map, List.mem_filter] at hl
+  rcases hl with (((hl | hl) | hl) | hl) | hl
+  · obtain ⟨n, _, rfl⟩ := hl
+    simp [romView, linkerSym, ne_romPos (classSize_ok _ _)]
+  · split at hl
+    · simp at hl
+    · simp only [List.mem_append, List.mem_map] at hl
+      rcases hl with hl | ⟨x, _, rfl⟩
+      · split at hl <;> simp at hl
+        subst hl; rfl
+      · rfl
+  · split at hl
+    · simp at hl
+    · simp only [List.mem_append, List.mem_map] at hl
+      rcases hl with hl | ⟨x, _, rfl⟩
+      · split at hl <;> simp at hl
+        subst hl; rfl
+      · rfl
+  · split at hl
+    · simp only [List.mem_append, List.mem_cons, List.mem_nil_iff, or_false, List.mem_map] at hl
+      rcases hl with (((hl | hl) | hl) | hl) | hl
+      · split at hl <;> simp at hl
+        subst hl; rfl
+      · rcases hl with rfl | rfl <;> rfl
+      · obtain ⟨x, _, rfl⟩ := hl; rfl
+      · split at hl <;> simp at hl
+        subst hl; rfl
+      · subst hl; rfl
+    · simp at hl
+  · subst hl; rfl
+
+/-- **C04, script level.** In a multi-segment script (ordinary, or the main script of partial
+mode) the statements that touch the ROM counter, together with the headers of all output
+sections of segments, are exactly: `__romPos = 0`, then the ROM statements of each emitted
+segment in document order. In particular no statement ever adds the size of a noload part,
+every noload part is `(NOLOAD)` without `AT`, every allocatable part has `AT(<its ROM start>)`. -/
+theorem sections_rom (cx : Ctx) (hcls : ∀ vc ∈ cx.d.vramClasses, vc.fixedSymbol ≠ some romPos)
+    (hm : cx.d.settings.singleSegmentMode = false) (ls : List Line) (h : addAllSegments cx = .ok ls) :
+    ls.filterMap romView =
+      .init :: (cx.d.segments.filter (fun s => shouldEmit cx.o s.cond)).flatMap (segmentRom cx.d.settings.style) := by
+  unfold addAllSegments at h
+  simp only [hm] at h
+  split at h
+  · contradiction
+  split at h
+  · contradiction
+  · rename_i body em hb
+    injection h with h
+    subst h
+    simp only [List.filterMap_append, beginSections_rom, endSections_rom, addSegments_rom cx hcls _ _ _ _ hb]
+    simp
+
 end Slinky.C04
